@@ -66,7 +66,7 @@ pub struct Burst {
 }
 
 fn burst() -> impl Strategy<Value = Burst> {
-    (2u8..=16, prop_oneof![3 => 50u16..400, 1 => 400u16..2000], 1u32..400, 1u32..4, prop_oneof![Just(0usize), Just(1usize), Just(2usize)], prop_oneof![Just(1usize), Just(7usize), Just(65537usize)], prop_oneof![2 => Just(0u8), 2 => 1u8..8], 0u8..3, any::<bool>())
+    (2u8..=16, prop_oneof![3 => 50u16..400, 1 => 400u16..2000], 1u32..400, 1u32..4, prop_oneof![Just(0usize), Just(1usize), Just(2usize)], prop_oneof![Just(1usize), Just(7usize), Just(65537usize)], prop_oneof![2 => Just(0u8), 2 => 1u8..8], 0u8..4, any::<bool>())
         .prop_map(|(threads, per_thread, rate, window, slip, size, yield_every, category, saturated_neighbour)| Burst { threads, per_thread, rate, window, slip, size, yield_every, category, saturated_neighbour })
 }
 
@@ -81,7 +81,11 @@ fn c28_catalog() -> CatalogSpec {
                 RecSpec { owner: rel(&[]), ttl: 300, rd: RdSpec::Single(mr::T_NS, rel(&[b"ns"])) },
                 RecSpec { owner: rel(&[b"ns"]), ttl: 300, rd: RdSpec::A(1) },
                 RecSpec { owner: rel(&[b"www"]), ttl: 300, rd: RdSpec::A(2) },
-            ],
+            ]
+            .into_iter()
+            // 40 addresses: the answer does not fit a UDP response without EDNS (TC, no records)
+            .chain((0..40u8).map(|i| RecSpec { owner: rel(&[b"big"]), ttl: 300, rd: RdSpec::A(100 + i) }))
+            .collect(),
         }],
         single: false,
     }
@@ -91,7 +95,10 @@ pub fn oracle_c28(b: &Burst, st: &mut Stats) -> Verdict {
     let cat = tree(&c28_catalog());
     let limit = (b.rate as u64) * (b.window as u64);
     let total = b.threads as u64 * b.per_thread as u64;
-    let qname = match b.category {
+    // a response that is truncated anyway looks like a slipped one: such a stream is used only with slip 0
+    let category = if b.category == 3 && b.slip != 0 { 0 } else { b.category };
+    let qname = match category {
+        3 => n(&[b"big", b"rl", b"test"]),
         0 => n(&[b"www", b"rl", b"test"]),
         1 => n(&[b"missing", b"rl", b"test"]),
         _ => n(&[b"www", b"elsewhere"]),
@@ -144,6 +151,9 @@ pub fn oracle_c28(b: &Burst, st: &mut Stats) -> Verdict {
                         Response::Single(len) => {
                             if len < 12 {
                                 bad.fetch_add(1, Ordering::Relaxed);
+                            } else if buf[2] & 0x02 != 0 && category == 3 {
+                                // the stream's ordinary (truncated) response; nothing is slipped with slip 0
+                                full.fetch_add(1, Ordering::Relaxed);
                             } else if buf[2] & 0x02 != 0 {
                                 // TC set: slipped; must carry no records
                                 if buf[6..10] != [0, 0, 0, 0] {
@@ -185,6 +195,9 @@ pub fn oracle_c28(b: &Burst, st: &mut Stats) -> Verdict {
         ensure!(b.slip != 0 || s == 0, "slipped-with-slip-0", "{what}");
         ensure!(b.slip != 1 || d == 0, "dropped-with-slip-1", "{what}");
         st.class_n("bursts", 1);
+        if category == 3 {
+            st.class("burst-on-a-stream-of-truncated-responses");
+        }
         if b.saturated_neighbour {
             st.class(if b.size == 1 { "burst-taking-over-the-saturated-bucket-of-another-stream" } else { "burst-after-a-saturated-stream-of-another-network" });
         }
